@@ -147,6 +147,24 @@ Example C11_shape_permuted_orders :
   = Some [UInt 1; UFloat (Some 1) "1.0"].
 Proof. reflexivity. Qed.
 
+(* TypeVar positions: constraints decide, a default or bound next to them is irrelevant *)
+Theorem C11_typevar_constraints_win : forall co cs fb fb' d, cs <> [] ->
+  typevar_dec co cs fb d = union_dec co cs d /\ typevar_dec co cs fb d = typevar_dec co cs fb' d.
+Proof. exact typevar_constraints_win. Qed.
+Print Assumptions C11_typevar_constraints_win.
+
+Theorem C11_typevar_partial : forall co cs fb d, cs <> [] ->
+  coherent cs d -> none_safe cs d = true -> no_shadow cs d = true ->
+  typevar_dec co cs fb d = ref_union co cs d.
+Proof. exact typevar_partial. Qed.
+Print Assumptions C11_typevar_partial.
+
+(* T = TypeVar("T", int, str, default=str) <- 1 is 1, not "1" *)
+Example C11_typevar_default_ignored :
+  typevar_dec (fun k d => match k, d with KStr, UInt 1 => Some (UStr "1") | _, _ => None end)
+              [MS KInt; MS KStr] (fun d => match d with UInt 1 => Some (UStr "1") | _ => None end) (UInt 1) = Some (UInt 1).
+Proof. reflexivity. Qed.
+
 (* ---------- Optional ---------- *)
 
 Theorem C11_opt : forall co,
